@@ -646,6 +646,18 @@ func (env *SpecEnv) call(x *SExpr) (sval, error) {
 			return sval{}, err
 		}
 		return sval{app(SInt, "rune_count", s.t), types.Typ[types.Int]}, nil
+	case "parseint", "parseok":
+		// strconv.ParseInt(s, 0, 0): the value of a C-style constant / whether it is one
+		v, err := env.eval(args[0])
+		if err != nil {
+			return sval{}, err
+		}
+		e.U.declareFun("parseint.0", []Sort{SStr}, SBV)
+		e.U.declareFun("parseint.ok.0", []Sort{SStr}, SBool)
+		if fnx.Name == "parseok" {
+			return sval{app(SBool, "parseint.ok.0", v.t), types.Typ[types.Bool]}, nil
+		}
+		return sval{app(SBV, "parseint.0", v.t), types.Typ[types.Int]}, nil
 	case "itoa":
 		v, err := env.eval(args[0])
 		if err != nil {
@@ -901,7 +913,7 @@ func (f *Frame) lastDefBefore(b *ssa.BasicBlock, upto int, name string, st *Stat
 			if x.Object() == nil || x.Object().Name() != name {
 				continue
 			}
-			if _, isVar := x.Object().(*types.Var); !isVar {
+			if v, isVar := x.Object().(*types.Var); !isVar || v.IsField() {
 				continue
 			}
 			if x.IsAddr {
